@@ -473,9 +473,103 @@ def field_widths(ck, prog):
         r.skip('no field-to-field copy or comparison in %s' % ', '.join(sorted(files)))
 
 
+# ---------------------------------------------------------------------------
+# allocation results are tested
+
+_ALLOC_BASE = {'dbus_malloc', 'dbus_malloc0', 'dbus_realloc'}
+
+# reviewed untested allocation results: (function, callee) -> reason
+ALLOC_REVIEWED = {
+    ('process_config_first_time_only', 'context->pidfile'):
+        'the pid file name is only kept to delete the file at exit; without it the file is left behind',
+}
+
+
+def allocating_nullable(prog):
+    """Pointer-returning functions that have a `return NULL` and (transitively) call the allocator: their NULL
+    means out of memory (or includes it)."""
+    out = set(_ALLOC_BASE)
+    cands = {}
+    for g in prog.funcs.values():
+        if not g.ret or '*' not in g.ret:
+            continue
+        if any(ev['ev'] == 'return' and ev.get('e') is not None and is_int(ev['e'], 0) for b, i, ev in g.events()):
+            cands[g.name] = {c.get('callee') for b, i, c in g.calls() if c.get('callee')}
+    changed = True
+    while changed:
+        changed = False
+        for name, callees in cands.items():
+            if name not in out and callees & out:
+                out.add(name)
+                changed = True
+    return out
+
+
+def allocation_results(ck, prog):
+    from .cfg import estr, is_ref, same_expr, written_lvalues
+    pid = ck.pid
+    files = anchor_files(pid)
+    r = ck.rule(pid + '.N', 'allocation results are examined in this property\'s files: where the pointer returned by '
+                'an allocating function (one that returns NULL when memory runs out) is stored in a variable, field or '
+                'slot, that same place is tested in a branch condition or assertion of the function, or handed back to '
+                'the caller', 'TS',
+                breaks='an out-of-memory NULL is taken for a meaningful value (an empty list, "no restriction", "not '
+                       'set") or dereferenced', floor=5)
+    names = allocating_nullable(prog)
+    n = 0
+    for f in prog.funcs.values():
+        if f.file not in files or not prog.is_production(f):
+            continue
+        conds = None
+        for b, i, ev in f.events():
+            for lhs, how, rhs in written_lvalues(ev):
+                if how not in ('=', 'decl') or rhs is None or rhs.get('k') != 'call' or rhs.get('callee') not in names:
+                    continue
+                if conds is None:
+                    conds = []
+                    for blk in f.blocks.values():
+                        t = blk.get('term')
+                        if t and t.get('cond') is not None:
+                            conds.append(t['cond'])
+                    for b2, i2, ev2 in f.events():
+                        if ev2['ev'] == 'return' and ev2.get('e') is not None:
+                            conds.append(ev2['e'])
+                        if ev2['ev'] == 'call' and ev2['e'].get('callee') == '_dbus_real_assert':
+                            conds.append(ev2['e']['args'][0])
+                        # handing the place itself (not its address) to a callee passes the verdict on
+                n += 1
+                lk = lhs.get('k')
+
+                def mentions(e, lhs=lhs, lk=lk):
+                    for x in walk(e):
+                        if lk is None or lk == 'ref':
+                            if is_ref(x) and x.get('id') == lhs.get('id'):
+                                return True
+                        elif x.get('k') == lk and same_expr(x, lhs):
+                            return True
+                    return False
+                spelled = estr(lhs) if lk else lhs.get('name')
+                key = '%s:%s=%s' % (f.name, spelled, rhs.get('callee'))
+                if any(mentions(c) for c in conds):
+                    r.ok(key)
+                elif lk == 'un' and lhs.get('op') == '*' and is_ref(lhs.get('e')) and lhs['e'].get('kind') == 'param':
+                    r.ok(key, {'passed-on': 'stored through an out-parameter: the caller examines it'})
+                elif (f.name, spelled) in ALLOC_REVIEWED:
+                    r.ok(key, {'reviewed': ALLOC_REVIEWED[(f.name, spelled)]})
+                else:
+                    r.violation(key, f.name, f.file, ev['line'],
+                                '%s receives the result of %s, which is NULL when memory runs out, and %s never '
+                                'examines it' % (spelled, rhs.get('callee'), f.name))
+    if n == 0:
+        r.skip('no allocation result is stored in %s' % ', '.join(sorted(files)))
+    else:
+        r.note('%d stored allocation results examined' % n)
+
+
 def run(ck, prog):
     error_discipline(ck, prog)
     onebit_stores(ck, prog)
     boundary_comparisons(ck, prog)
     constant_arguments(ck, prog)
     field_widths(ck, prog)
+    allocation_results(ck, prog)
